@@ -60,7 +60,7 @@ def gen_oracle_rs(oracle):
 
 def prepare_lib_crate():
     r = prep.repo()
-    d = os.path.join(VERIF, 'kani-lib')
+    d = prep.crate_copy('kani-lib')
     tmpl = open(os.path.join(d, 'Cargo.toml.in')).read().replace('@GREX_REPO@', r)
     cur = None
     try:
@@ -108,7 +108,7 @@ def run_harness(harness, where, target, timeout_s, mem_kb=16_000_000, extra_args
     if extra_env:
         env.update(extra_env)
     if where == 'lib':
-        cwd = os.path.join(VERIF, 'kani-lib')
+        cwd = prep.crate_copy('kani-lib')
         cmd = ['cargo', 'kani', '--target-dir', target, '--harness', harness]
     else:
         cwd = prep.repo()
